@@ -70,7 +70,7 @@ theorem kept_addSubTrie {s s' : St} {root parent : Hash} {depth : Nat} {cb : Boo
   | none => simp [hb] at ha
   | some sp =>
     obtain ⟨s1, ps⟩ := sp
-    simp only [hb, Option.some.injEq] at ha
+    simp [hb] at ha
     subst ha
     exact ⟨(kept_bumpParent hb).trans (kept_schedule _ _), Or.inr (Or.inr (schedule_pending _ _))⟩
 
@@ -88,7 +88,7 @@ theorem kept_addRawEntry {s s' : St} {h parent : Hash} {depth : Nat}
   | none => simp [hb] at ha
   | some sp =>
     obtain ⟨s1, ps⟩ := sp
-    simp only [hb, Option.some.injEq] at ha
+    simp [hb] at ha
     subst ha
     exact (kept_bumpParent hb).trans (kept_schedule _ _)
 
